@@ -105,9 +105,12 @@ def simulate(name, wd, ver, flavour, lines, calls, *, num, depth, seed, max_id=4
         with open(os.path.join(simdir, fn), encoding="utf-8") as fh:
             text = fh.read()
         acts = []
-        for m in re.finditer(r"/\\ last = \[a \|-> \"(\w+)\"(?:, i \|-> (\d+))?", text):
-            if m.group(1) != "Init":
-                acts.append((m.group(1), int(m.group(2)) if m.group(2) else None))
+        for m in re.finditer(r"/\\ last = \[([^\]]*)\]", text):
+            body = m.group(1)
+            a = re.search(r'a \|-> "(\w+)"', body).group(1)
+            i = int(re.search(r"i \|-> (\d+)", body).group(1))
+            if a != "Init":
+                acts.append((a, i))
         if acts:
             behaviours.append(acts)
     shutil.rmtree(simdir, ignore_errors=True)
